@@ -59,6 +59,7 @@ def plan(tier):
         for i in range(4):
             specs.append({"part": "hyp", "n": 1500, "i": i})
         specs.append({"part": "hdr", "n": 600})
+        specs.append({"part": "ackread", "n": 1500})
         for i in range(3):
             specs.append({"part": "hdrworld", "n": 250, "i": i})
         for i in range(2):
@@ -75,6 +76,7 @@ def plan(tier):
             specs.append({"part": "hyp", "n": 50000, "i": i})
         for i in range(8):
             specs.append({"part": "hdr", "n": 5000, "i": i})
+        specs.append({"part": "ackread", "n": 60000})
         for i in range(8):
             specs.append({"part": "hdrworld", "n": 4000, "i": i})
         for i in range(6):
@@ -411,7 +413,20 @@ def hdrworld_body(ctx, c):
     link = scen.Link(c["link"])
     flags = set()
     with W.World(seed=c["seed"], flavour=c["flavour"]) as w:
-        ch = w.connect_client()
+        # the handshake datagrams are datagrams too: what the client emits after it accepted the server hello names that hello,
+        # however the application's connect callback returns (it may raise: an application bug, not a reason to forget a datagram)
+        ch = w.add_client()
+        ch.connect(raises=bool(c.get("cb_raises")))
+        if not w.run(3.0, 0.017, until=lambda: ch.connected() and ch.laddr in w.ctxt.connections):
+            raise W.WorldError("honest handshake did not complete")
+        hello = [em for em in w.net.log if em.dst == ch.laddr and W.parse_header(em.data).type == W.T_SERVER_HELLO and em.fates]
+        after = [em for em in w.net.log if em.to_server and em.src == ch.laddr and hello and em.i > hello[0].i and em.key is not None]
+        if hello and after:
+            hs, ha = W.parse_header(hello[0].data), W.parse_header(after[0].data)
+            if ha.ack != hs.seq:
+                ctx.violation("ack-fields-handshake", "the first datagram the client emitted after it accepted the server hello (datagram %d) "
+                              "carries ack=%d bits=%08x%s" % (hs.seq, ha.ack, ha.ack_bits, " (connect callback raised)" if c.get("cb_raises") else ""))
+            flags.add("handshake-ack" + ("-callback-raises" if c.get("cb_raises") else ""))
         sconn = w.server_conn(ch.laddr)
         for conn, peer in ((ch.conn, sconn), (sconn, ch.conn)):
             if c["pos"]:
@@ -538,6 +553,7 @@ def run_hdrworld(spec, ctx):
         "pos": st.sampled_from([0, 0, 65480, 65520]),
         "link": scen.link_specs(max_loss=0.3, max_outage=0.6, horizon=2.0),
         "ticks": st.lists(tick, min_size=20, max_size=90), "dt": st.sampled_from([0.017, 0.034]),
+        "cb_raises": st.sampled_from([False, True]),
     })
 
     @ctx.given(spec["n"], cases, salt=spec.get("i", 0))
@@ -551,6 +567,82 @@ def run_hdrworld(spec, ctx):
         if {"gaps", "reordered", "copies"} <= flags:
             ctx.nt(("hdrworld", c["seed"], c["pos"], len(c["ticks"])))
         ctx.sample({"part": "hdrworld", "pos": c["pos"], "link": c["link"], "n_ticks": len(c["ticks"])})
+    test()
+
+
+# ------------------------------------------------------------------------- part 3c: reading the peer's ack fields
+def ackread_body(ctx, start, n_sent, ack_back, bits):
+    """the other end of the same 33-bit statement: a real connection sent n datagrams (numbers start+1 ...), then one genuine
+    datagram of the peer arrives whose ack field is the number of one of them and whose bitmap is drawn.  Exactly the named
+    datagrams resolve (callback True, no longer pending); the others stay pending - wherever the numbers lie relative to
+    65535 -> 1.  Oracle: positions on the integer line (ack - i for bit i), no ring arithmetic of the library"""
+    now = [1000.0]
+    conn = ConnectionBase(True, ("h", 1))
+    conn.clock = lambda: now[0]
+    conn.status = ConnectionStatus.CONNECTED
+    conn.session_key_bytes = b"K" * 16
+    conn.seq_sending = SeqNum(ring(M * 4 + start))       # white-box positioning of the datagram counter
+    results = {}
+    seqs = []
+    for j in range(n_sent):
+        conn.send(b"m%03d" % j, callback=lambda ok, j=j: results.setdefault(j, []).append(ok))
+        out = conn._build_packet()
+        if out is None:
+            ctx.violation("window-hdr", "no packet built")
+            return set()
+        seqs.append(int(out.hdr.seq))
+        now[0] += 0.0167                               # the protocol's send-rate cap; 50 datagrams stay inside one message timeout
+    for j in range(1, n_sent):
+        if seqs[j] != ring(seqs[j - 1] + 1) or seqs[j] == 0:
+            ctx.violation("wire-seq-not-consecutive", "datagram numbers %d then %d" % (seqs[j - 1], seqs[j]))
+    k = n_sent - 1 - min(ack_back, n_sent - 1)            # index of the datagram the ack field names
+    named = {k} | {k - i for i in range(1, 33) if bits & (0x80000000 >> (i - 1)) and k - i >= 0}
+    hdr = PacketHeader.create(False, int(now[0]), PacketType.APP, SeqNum(1), SeqNum(seqs[k]), bits)
+    pkt = Packet.create(hdr, [PendingMessage(SeqNum(1), PacketType.APP, b"x", None, 0)])
+    dg = pkt.to_bytes(conn.session_key_bytes)
+    ok = conn._recv_datagram(PacketHeader.from_bytes(True, dg), dg)
+    flags = set()
+    if not ok:
+        ctx.violation("window-accept", "the first datagram of the peer was not accepted")
+        return flags
+    for j in range(n_sent):
+        got = results.get(j, [])
+        exp = [True] if j in named else []
+        if got != exp or ((seqs[j] in conn.pending_acks) != (j not in named)):
+            ctx.violation("ack-fields-read", "sent datagrams %d..%d; peer header ack=%d bits=%08x names %s; datagram %d: callback %r, pending %r "
+                          "(expected %s)" % (seqs[0], seqs[-1], seqs[k], bits, sorted(seqs[i] for i in named), seqs[j], got,
+                                             seqs[j] in conn.pending_acks, "acknowledged" if j in named else "still pending"))
+    if seqs[0] > seqs[-1]:
+        flags.add("sent-across-wrap")
+        if any(seqs[i] > seqs[k] for i in named):
+            flags.add("bitmap-names-across-wrap")
+    if len(named) > 1 and len(named) < k + 1:
+        flags.add("gaps")
+    return flags
+
+
+def run_ackread(spec, ctx):
+    # every start from 40 before the wrap to 5 after it x a few shapes, enumerated; then drawn cases
+    n = 0
+    for start in list(range(M - 45, M + 1)) + list(range(1, 6)):
+        for n_sent, ack_back, bits in ((40, 0, 0xFFFFFFFF), (40, 0, 0xAAAAAAAA), (40, 3, 0x55555555), (34, 0, 0x80000001), (20, 1, 0x7FFFFFFF)):
+            ctx.case({"part": "ackread", "start": start, "n_sent": n_sent, "ack_back": ack_back, "bits": bits})
+            flags = ackread_body(ctx, start, n_sent, ack_back, bits)
+            n += 1
+            if "bitmap-names-across-wrap" in flags:
+                ctx.nt_enum += 1
+    ctx.exhaustive_sub.add("ack fields read: counter start M-45..M, 1..5 x 5 (sent, ack position, bitmap) shapes")
+
+    @ctx.given(spec["n"], st.one_of(st.integers(1, 300), st.integers(M - 80, M)), st.integers(1, 50), st.integers(0, 10), st.integers(0, 0xFFFFFFFF), salt="ackread")
+    def test(start, n_sent, ack_back, bits):
+        if ctx.out_of_time():
+            return
+        ctx.case({"part": "ackread", "start": start, "n_sent": n_sent, "ack_back": ack_back, "bits": bits})
+        flags = ackread_body(ctx, start, n_sent, ack_back, bits)
+        for f in flags:
+            ctx.label("ackread-" + f)
+        if "bitmap-names-across-wrap" in flags:
+            ctx.nt(("ackread", start, n_sent, ack_back, bits))
     test()
 
 
@@ -633,6 +725,8 @@ def run_shard(spec, ctx):
         run_hdr(spec, ctx)
     elif part == "hdrworld":
         run_hdrworld(spec, ctx)
+    elif part == "ackread":
+        run_ackread(spec, ctx)
     elif part == "msgwin":
         run_msgwin(spec, ctx)
 
@@ -650,5 +744,7 @@ def replay_case(case, ctx):
         hdr_body(ctx, case["start"], case["offsets"])
     elif part == "hdrworld":
         hdrworld_body(ctx, case["c"])
+    elif part == "ackread":
+        ackread_body(ctx, case["start"], case["n_sent"], case["ack_back"], case["bits"])
     elif part == "msgwin":
         msgwin_body(ctx, case["start"], case["offsets"])
